@@ -223,7 +223,35 @@ def do_gparse(req):
     return {'status': 'ok', 'trees': out}
 
 
-HANDLERS = {'solve': do_solve, 'transform': do_transform, 'loop': do_loop, 'pyparse': do_pyparse, 'gparse': do_gparse}
+def do_history(req):
+    """a sequence of operations in THIS process (state leakage between calls shows up here); op = ['transform'|'solve', texts, H?];
+    with req['threads'] the operations are run concurrently in that many threads (interleaved translate/solve calls)"""
+    ops = req['ops']
+
+    def one(op):
+        if op[0] == 'transform':
+            return do_transform({'texts': op[1]})
+        return do_solve({'texts': op[1], 'imax': op[2] + 1, 'istop': 'UNKNOWN'})
+    if req.get('threads', 1) <= 1:
+        return {'status': 'ok', 'results': [one(op) for op in ops]}
+    import threading
+    res = [None] * len(ops)
+
+    def work(k):
+        for i in range(k, len(ops), req['threads']):
+            try:
+                res[i] = one(ops[i])
+            except BaseException as e:  # noqa
+                res[i] = {'status': 'exc', 'type': type(e).__name__, 'msg': str(e)[:200]}
+    ts = [threading.Thread(target=work, args=(k,)) for k in range(req['threads'])]
+    for t in ts:
+        t.start()
+    for t in ts:
+        t.join()
+    return {'status': 'ok', 'results': res}
+
+
+HANDLERS = {'history': do_history, 'solve': do_solve, 'transform': do_transform, 'loop': do_loop, 'pyparse': do_pyparse, 'gparse': do_gparse}
 
 
 def main():
